@@ -13,6 +13,7 @@ mod e1;
 mod e2;
 mod model;
 mod p_e1;
+mod p_e2;
 mod rng;
 
 use std::sync::Arc;
@@ -131,11 +132,15 @@ fn show_one<C: Check>(c: C, idx: u64, a: &Args) -> i32 {
 macro_rules! dispatch {
     ($prop:expr, $f:ident, $($arg:expr),*) => {
         match $prop {
+            "C01" => $f(p_e2::C01, $($arg),*),
+            "C02" => $f(p_e2::C02, $($arg),*),
             "C04" => $f(p_e1::C04, $($arg),*),
             "C06" => $f(p_e1::C06, $($arg),*),
             "C07" => $f(p_e1::C07, $($arg),*),
             "C09" => $f(model::C09, $($arg),*),
             "C10" => $f(p_e1::C10, $($arg),*),
+            "C13" => $f(p_e2::C13, $($arg),*),
+            "C15" => $f(p_e2::C15, $($arg),*),
             other => {
                 eprintln!("unknown or not-applicable property {other}");
                 2
